@@ -444,6 +444,52 @@ fn record(args: &Args) {
         texts.push(("ruid:extra-hyphen-multibyte".into(), v.iter().collect()));
         texts.push(("ruid:upper".into(), ruid.to_uppercase()));
         texts.push(("ruid:no-hyphens".into(), ruid.replace('-', "")));
+        // every group-length split of the same 64 hex digits with each hyphen displaced by -1 / 0 / +1 (26 malformed + the canonical one),
+        // one hyphen missing, an extra hyphen, a hyphen replaced: never sampled
+        let hex64: String = ruid.chars().filter(|c| c.is_ascii_hexdigit()).collect();
+        let split = |lens: &[usize]| -> String {
+            let mut out = String::from("{");
+            let mut at = 0;
+            for (k, l) in lens.iter().enumerate() {
+                if k > 0 { out.push('-'); }
+                out.push_str(&hex64[at..at + l]);
+                at += l;
+            }
+            out.push('}');
+            out
+        };
+        for d1 in [-1i32, 0, 1] {
+            for d2 in [-1i32, 0, 1] {
+                for d3 in [-1i32, 0, 1] {
+                    // hyphen positions 16+d1, 33+d2, 50+d3 inside the braces
+                    let (h1, h2, h3) = (16 + d1, 33 + d2, 50 + d3);
+                    let lens = [h1 as usize, (h2 - h1 - 1) as usize, (h3 - h2 - 1) as usize, (66 - h3) as usize];
+                    let cls = if (d1, d2, d3) == (0, 0, 0) { "ruid:split-canonical".to_string() } else { format!("ruid:split:{}:{}:{}", d1, d2, d3) };
+                    texts.push((cls, split(&lens)));
+                }
+            }
+        }
+        texts.push(("ruid:missing-hyphen-1".into(), split(&[32, 16, 16])));
+        texts.push(("ruid:missing-hyphen-2".into(), split(&[16, 32, 16])));
+        texts.push(("ruid:missing-hyphen-3".into(), split(&[16, 16, 32])));
+        texts.push(("ruid:extra-hyphen".into(), split(&[16, 16, 16, 8, 8])));
+        texts.push(("ruid:extra-hyphen-front".into(), split(&[8, 8, 16, 16, 16])));
+        for (k, pos) in [17usize, 34, 51].iter().enumerate() {
+            for repl in ['_', ':', '0', 'a', ' '] {
+                let mut v: Vec<char> = ruid.chars().collect();
+                v[*pos] = repl;
+                texts.push((format!("ruid:hyphen-{}-replaced", k + 1), v.iter().collect()));
+            }
+            // the hyphen slot holds a hex digit and a hyphen sits right before / after it (67 characters kept)
+            let mut v: Vec<char> = ruid.chars().collect();
+            v.swap(*pos, *pos + 1);
+            texts.push((format!("ruid:hyphen-{}-late", k + 1), v.iter().collect()));
+            let mut v: Vec<char> = ruid.chars().collect();
+            v.swap(*pos, *pos - 1);
+            texts.push((format!("ruid:hyphen-{}-early", k + 1), v.iter().collect()));
+        }
+        texts.push(("ruid:65-hex".into(), format!("{{{}f}}", &ruid[1..ruid.len() - 1])));
+        texts.push(("ruid:63-hex".into(), format!("{{{}}}", &ruid[1..ruid.len() - 2])));
         let too_long = format!("<{}>", "a".repeat(65));
         texts.push(("string:65".into(), too_long));
         texts.push(("bytes:65".into(), format!("[{}]", "ab".repeat(65))));
